@@ -1,18 +1,15 @@
-use candid::{CandidType, Deserialize};
-use candid::types::internal::TypeContainer;
-#[derive(CandidType, Deserialize)]
-pub struct X { y: Option<Box<Y>>, z: Option<Box<Z>> }
-#[derive(CandidType, Deserialize)]
-pub struct Y { x: Option<Box<X>> }
-#[derive(CandidType, Deserialize)]
-pub struct Z { x: Option<Box<X>> }
+use candid_parser::{check_prog, IDLProg};
+use candid::TypeEnv;
 fn main() {
-    let mut c = TypeContainer::new();
-    let t = c.add::<Y>();
-    println!("{t}");
-    for (k, v) in c.env.0.iter() { println!("type {k} = {v};"); }
-    let mut c = TypeContainer::new();
-    let t = c.add::<Z>();
-    println!("--\n{t}");
-    for (k, v) in c.env.0.iter() { println!("type {k} = {v};"); }
+    for src in [
+        "type A = service { f : (nat) -> (nat) query; g : () -> (); \"import\" : () -> () }; type B = record { x : A }; service : (nat, B) -> A",
+        "service : { f : (nat) -> (nat) query; h : () -> () oneway; var : () -> () }",
+        "type S = service { a : () -> () }; service : S",
+        "service : (opt nat) -> { f : (nat) -> (nat) query }",
+    ] {
+        let ast: IDLProg = src.parse().unwrap(); let ast2: IDLProg = src.parse().unwrap(); let merged = candid_parser::syntax::IDLMergedProg::new(ast2);
+        let mut env = TypeEnv::new();
+        let actor = check_prog(&mut env, &ast).unwrap();
+        println!("---- {src}\n{}", candid_parser::bindings::motoko::compile(&env, &actor, &merged));
+    }
 }
